@@ -1,7 +1,7 @@
 /-
 C01 — relevance and watch predicates of the dependent kinds: soundness THEOREMS for the footprint model
-(`NGF.Model.Footprint`: what `BuildGraph` reads of Services, EndpointSlices, Namespaces, Secrets, ConfigMaps and
-which objects `Graph.IsReferenced` declares referenced), instantiated into `converges_of_sound`.
+(`NGF.Model.Footprint`: what `BuildGraph` reads of Services, EndpointSlices, Namespaces, Secrets, ConfigMaps,
+NginxProxies and NGF policies, and which objects `Graph.IsReferenced` / `IsNGFPolicyRelevant` declare referenced), instantiated into `converges_of_sound`.
 The build is the most informative one that respects the reading discipline of the Go code (it exposes, per key,
 exactly what is read); relevance is `isRef(new) || isRef(stored)` against the LATEST graph — no oracle bit.
 -/
@@ -179,7 +179,222 @@ example :
     (σ.applied.map fun g => (g.seen "default/s0", g.seen "default/s1")) = some (none, none) := by
   decide
 
+/-! ### `rel_sound_<Kind>` for the remaining kinds with a relevance predicate, each with the witness that refutes the
+natural weakened variant -/
+
+/-- **Namespace** (`isNamespaceReferenced` over ALL listeners that have a selector — valid or not — `|| existed`): a
+Namespace event judged irrelevant leaves the build unchanged. -/
+theorem rel_sound_Namespace (s : Cl NsCore Labels) (e : FEvent NsCore Labels) (hw : watch nsFrame s e = true)
+    (hv : verdict ops (rel nsFrame) (some (build nsFrame s)) s e = false) :
+    build nsFrame (storeAfter ops s e) = build nsFrame s :=
+  rel_sound_of_frame nsFrame _ _ ns_ok s e (adm_true s e) hw hv
+
+/-- Weakened variant REFUTED (pre-image of seeded change C01-r3m1: `isNamespaceReferenced` skips invalid listeners):
+the only selector listener is invalid but attachable; the Namespace loses the label: judged irrelevant, the applied
+output keeps "selector matches", a fresh controller says it does not. The tree's predicate rebuilds. -/
+theorem namespace_invalid_listener_diverges :
+    let core : NsCore := { listeners := [{ valid := false, sel := [("team", "dev")] }] }
+    let w₀ : Cl NsCore Labels := { core := core, objs := upd (fun _ => none) "team-a" (some [("team", "dev")]) }
+    let hist : Hist NsCore Labels := [.mutate ⟨.obj, "team-a", some (.inr []), false⟩, .cut]
+    let bad := run ops (build nsFrameValidOnly) (rel nsFrameValidOnly) (watch nsFrameValidOnly)
+      (start (build nsFrameValidOnly) w₀) hist
+    let good := run ops (build nsFrame) (rel nsFrame) (watch nsFrame) (start (build nsFrame) w₀) hist
+    nsReferencedValidOnly core [("team", "dev")] = false ∧ nsReferenced core [("team", "dev")] = true ∧
+    (bad.applied.map fun g => g.seen "team-a") = some (some [true]) ∧
+    ((fresh (build nsFrameValidOnly) bad.world).map fun g => g.seen "team-a") = some none ∧
+    (good.applied.map fun g => g.seen "team-a") = some none := by
+  decide
+
+/-- **Secret** (`ReferencedSecrets` = every name handed to `secretResolver.resolve`, found or not). -/
+theorem rel_sound_Secret (s : Cl SecCore Nat) (e : FEvent SecCore Nat)
+    (hv : verdict ops (rel secretFrame) (some (build secretFrame s)) s e = false) :
+    build secretFrame (storeAfter ops s e) = build secretFrame s :=
+  rel_sound_of_frame secretFrame _ _ (byName_ok _) s e (adm_true s e) (watch_true secretFrame (fun _ _ => rfl) s e) hv
+
+/-- Weakened variant REFUTED (a resolver that records only the Secrets it found): the listener's Secret is missing when
+the graph is built, then it is created: dropped, the listener stays without certificate. -/
+theorem secret_missing_then_created_diverges :
+    let core : SecCore := { listeners := [{ protocol := "HTTPS", certRef := "default/tls-a", allowed := true }] }
+    let F := byNameForgetMissing secretCandidates
+    let w₀ : Cl SecCore Nat := { core := core, objs := fun _ => none }
+    let hist : Hist SecCore Nat := [.mutate ⟨.obj, "default/tls-a", some (.inr 1), false⟩, .cut]
+    let bad := run ops (build F) (rel F) (watch F) (start (build F) w₀) hist
+    let good := run ops (build secretFrame) (rel secretFrame) (watch secretFrame) (start (build secretFrame) w₀) hist
+    (bad.applied.map fun g => g.seen "default/tls-a") = some none ∧
+    ((fresh (build F) bad.world).map fun g => g.seen "default/tls-a") = some (some 1) ∧
+    (good.applied.map fun g => g.seen "default/tls-a") = some (some 1) := by
+  decide
+
+/-- **ConfigMap** (`ReferencedCaCertConfigMaps` = every name handed to `configMapResolver.resolve`, found or not). -/
+theorem rel_sound_ConfigMap (s : Cl CmCore Nat) (e : FEvent CmCore Nat)
+    (hv : verdict ops (rel configMapFrame) (some (build configMapFrame s)) s e = false) :
+    build configMapFrame (storeAfter ops s e) = build configMapFrame s :=
+  rel_sound_of_frame configMapFrame _ _ (byName_ok _) s e (adm_true s e)
+    (watch_true configMapFrame (fun _ _ => rfl) s e) hv
+
+/-- Weakened variant REFUTED (pre-image of seeded change C01-r3m2: `resolve` returns before recording a missing
+ConfigMap): the BackendTLSPolicy's CA ConfigMap is created after the graph was built without it: dropped. -/
+theorem configmap_missing_then_created_diverges :
+    let core : CmCore := { hasGateway := true, btps := [{ ns := "default", nrefs := 1, wellKnown := false,
+                                                          kind := "ConfigMap", group := "", name := "ca" }] }
+    let F := byNameForgetMissing referencedConfigMaps
+    let w₀ : Cl CmCore Nat := { core := core, objs := fun _ => none }
+    let hist : Hist CmCore Nat := [.mutate ⟨.obj, "default/ca", some (.inr 7), false⟩, .cut]
+    let bad := run ops (build F) (rel F) (watch F) (start (build F) w₀) hist
+    let good := run ops (build configMapFrame) (rel configMapFrame) (watch configMapFrame)
+      (start (build configMapFrame) w₀) hist
+    (bad.applied.map fun g => g.seen "default/ca") = some none ∧
+    ((fresh (build F) bad.world).map fun g => g.seen "default/ca") = some (some 7) ∧
+    (good.applied.map fun g => g.seen "default/ca") = some (some 7) := by
+  decide
+
+/-- **NginxProxy** (`isNginxProxyReferenced`: named by the parametersRef of the GatewayClass, group and kind checked). -/
+theorem converges_NginxProxy (w₀ : Cl NpCore Nat) (hist : Hist NpCore Nat) :
+    (run ops (build nginxProxyFrame) (rel nginxProxyFrame) (watch nginxProxyFrame) (start (build nginxProxyFrame) w₀)
+      (hist ++ [.cut])).applied
+      = fresh (build nginxProxyFrame) (finalWorld ops w₀ hist) :=
+  converges_of_frame nginxProxyFrame np_ok w₀ hist
+
+theorem rel_sound_NginxProxy (s : Cl NpCore Nat) (e : FEvent NpCore Nat) (hw : watch nginxProxyFrame s e = true)
+    (hv : verdict ops (rel nginxProxyFrame) (some (build nginxProxyFrame s)) s e = false) :
+    build nginxProxyFrame (storeAfter ops s e) = build nginxProxyFrame s :=
+  rel_sound_of_frame nginxProxyFrame _ _ np_ok s e (adm_true s e) hw hv
+
+/-- Weakened variant REFUTED (referenced only when `buildNginxProxy` found it, i.e. `g.NginxProxy != nil`): the
+NginxProxy named by the class is created later: dropped, the class stays `InvalidParameters`/`RefNotFound`. -/
+theorem nginxproxy_missing_then_created_diverges :
+    let core : NpCore := { gatewayClass := some (some { group := ngfGroup, kind := "NginxProxy", name := "np" }) }
+    let F := nginxProxyFrameForgetMissing
+    let w₀ : Cl NpCore Nat := { core := core, objs := fun _ => none }
+    let hist : Hist NpCore Nat := [.mutate ⟨.obj, "np", some (.inr 3), false⟩, .cut]
+    let bad := run ops (build F) (rel F) (watch F) (start (build F) w₀) hist
+    let good := run ops (build nginxProxyFrame) (rel nginxProxyFrame) (watch nginxProxyFrame)
+      (start (build nginxProxyFrame) w₀) hist
+    (bad.applied.map fun g => g.seen "np") = some none ∧
+    ((fresh (build F) bad.world).map fun g => g.seen "np") = some (some 3) ∧
+    (good.applied.map fun g => g.seen "np") = some (some 3) ∧
+    -- a parametersRef of another group or kind references nothing
+    npReferenced { gatewayClass := some (some { group := "example.com", kind := "NginxProxy", name := "np" }) } "np" = false := by
+  decide
+
+/-- **NGF policies** (`IsNGFPolicyRelevant`: in the graph OR any targetRef resolves; ALL targetRefs are considered;
+`processPolicies` admits the policy under the same test, given a winning Gateway). -/
+theorem converges_NGFPolicy (w₀ : Cl PolCore PolicyM) (hist : Hist PolCore PolicyM) :
+    (run ops (build policyFrame) (rel policyFrame) (watch policyFrame) (start (build policyFrame) w₀)
+      (hist ++ [.cut])).applied
+      = fresh (build policyFrame) (finalWorld ops w₀ hist) :=
+  converges_of_frame policyFrame policy_ok w₀ hist
+
+theorem rel_sound_NGFPolicy (s : Cl PolCore PolicyM) (e : FEvent PolCore PolicyM) (hw : watch policyFrame s e = true)
+    (hv : verdict ops (rel policyFrame) (some (build policyFrame s)) s e = false) :
+    build policyFrame (storeAfter ops s e) = build policyFrame s :=
+  rel_sound_of_frame policyFrame _ _ policy_ok s e (adm_true s e) hw hv
+
+def polCore : PolCore :=
+  { hasWinner := true, gateways := ["default/gw0"], routes := [("HTTPRoute", "default/hr0")], refSvcs := ["default/svc0"] }
+
+def obsPolicy : PolicyM :=
+  { ns := "default", payload := 1,
+    refs := [{ group := gatewayGroup, kind := "HTTPRoute", name := "hr-absent" },
+             { group := gatewayGroup, kind := "HTTPRoute", name := "hr0" }] }
+
+/-- Weakened variant REFUTED (seeded change C01-m3: only the FIRST targetRef decides): a policy whose first target is
+absent and whose second is a route of the graph is created: dropped, no status is ever written, a fresh controller
+processes it. -/
+theorem policy_first_targetref_only_diverges :
+    let F := policyFrameFirstRef
+    let w₀ : Cl PolCore PolicyM := { core := polCore, objs := fun _ => none }
+    let hist : Hist PolCore PolicyM := [.mutate ⟨.obj, "ObservabilityPolicy/default/obs", some (.inr obsPolicy), false⟩, .cut]
+    let bad := run ops (build F) (rel F) (watch F) (start (build F) w₀) hist
+    let good := run ops (build policyFrame) (rel policyFrame) (watch policyFrame) (start (build policyFrame) w₀) hist
+    policyRelevantFirst polCore obsPolicy = false ∧ policyRelevant polCore obsPolicy = true ∧
+    (bad.applied.map fun g => g.seen "ObservabilityPolicy/default/obs") = some none ∧
+    ((fresh (build F) bad.world).map fun g => g.seen "ObservabilityPolicy/default/obs") = some (some obsPolicy) ∧
+    (good.applied.map fun g => g.seen "ObservabilityPolicy/default/obs") = some (some obsPolicy) := by
+  decide
+
+/-- Non-vacuity for the policy frame: relevant by a Service target (UpstreamSettingsPolicy shape), retargeted away
+(judged by the STORED object / the in-graph clause: still relevant), deleted; a Gateway target without a winner
+resolves to nothing. -/
+example :
+    let usp : PolicyM := { ns := "default", payload := 2, refs := [{ group := "", kind := "Service", name := "svc-absent" },
+                                                                    { group := "core", kind := "Service", name := "svc0" }] }
+    let away : PolicyM := { usp with refs := [{ group := "", kind := "Service", name := "svc-absent" }] }
+    let w₀ : Cl PolCore PolicyM := { core := polCore, objs := fun _ => none }
+    let σ := run ops (build policyFrame) (rel policyFrame) (watch policyFrame) (start (build policyFrame) w₀)
+      [.mutate ⟨.obj, "usp", some (.inr usp), false⟩, .cut,
+       .mutate ⟨.obj, "usp", some (.inr away), false⟩, .cut]
+    (σ.applied.map fun g => g.seen "usp") = some none ∧ σ.proc.ct = .none ∧
+    refResolves { polCore with hasWinner := false } "default" { group := gatewayGroup, kind := "Gateway", name := "gw0" } = false ∧
+    refResolves polCore "default" { group := gatewayGroup, kind := "Gateway", name := "gw0" } = true := by
+  decide
+
 /-! ### Tie to the source: the functions the footprint model mirrors -/
+
+/-- The resolvers record a name whether or not the object exists; `isNginxProxyReferenced`, `IsNGFPolicyRelevant`,
+`gatewayAPIResourceExist`, `gatewayExists` and the targetRef loop of `processPolicies` are the statements the frames follow. -/
+theorem relevance_functions_as_modelled :
+    Generated.Store.secretResolveBody =
+      ["if s, resolved := r.resolvedSecrets[nsname]; resolved { return s.err }",
+      "secret, exist := r.clusterSecrets[nsname]",
+      "var validationErr error",
+      "switch { case !exist: validationErr = errors.New(\"secret does not exist\") case secret.Type != apiv1.SecretTypeTLS: validationErr = fmt.Errorf(\"secret type must be %q not %q\", apiv1.SecretTypeTLS, secret.Type) default: _, err := tls.X509KeyPair(secret.Data[apiv1.TLSCertKey], secret.Data[apiv1.TLSPrivateKeyKey]) if err != nil { validationErr = fmt.Errorf(\"TLS secret is invalid: %w\", err) } }",
+      "r.resolvedSecrets[nsname] = &secretEntry{ Secret: Secret{ Source: secret, }, err: validationErr, }",
+      "return validationErr"] ∧
+    Generated.Store.getResolvedSecretsBody =
+      ["if len(r.resolvedSecrets) == 0 { return nil }",
+      "resolved := make(map[types.NamespacedName]*Secret)",
+      "for nsname, entry := range r.resolvedSecrets { secret := entry.Secret resolved[nsname] = &secret }",
+      "return resolved"] ∧
+    Generated.Store.configMapResolveBody =
+      ["if s, resolved := r.resolvedCaCertConfigMaps[nsname]; resolved { return s.err }",
+      "cm, exist := r.clusterConfigMaps[nsname]",
+      "var validationErr error",
+      "var caCert []byte",
+      "if !exist { validationErr = errors.New(\"ConfigMap does not exist\") } else { if cm.Data != nil { if _, exists := cm.Data[CAKey]; exists { validationErr = validateCA([]byte(cm.Data[CAKey])) caCert = []byte(cm.Data[CAKey]) } } if cm.BinaryData != nil { if _, exists := cm.BinaryData[CAKey]; exists { validationErr = validateCA(cm.BinaryData[CAKey]) caCert = cm.BinaryData[CAKey] } } if len(caCert) == 0 { validationErr = fmt.Errorf(\"ConfigMap does not have the data or binaryData field %v\", CAKey) } }",
+      "r.resolvedCaCertConfigMaps[nsname] = &caCertConfigMapEntry{ caCertConfigMap: CaCertConfigMap{ Source: cm, CACert: caCert, }, err: validationErr, }",
+      "return validationErr"] ∧
+    Generated.Store.getResolvedConfigMapsBody =
+      ["if len(r.resolvedCaCertConfigMaps) == 0 { return nil }",
+      "resolved := make(map[types.NamespacedName]*CaCertConfigMap)",
+      "for nsname, entry := range r.resolvedCaCertConfigMaps { caCertConfigMap := entry.caCertConfigMap resolved[nsname] = &caCertConfigMap }",
+      "return resolved"] ∧
+    Generated.Store.isNginxProxyReferencedBody =
+      ["return gc != nil && gcReferencesAnyNginxProxy(gc.Source) && gc.Source.Spec.ParametersRef.Name == npNSName.Name"] ∧
+    Generated.Store.gcReferencesAnyNginxProxyBody =
+      ["if gc != nil { ref := gc.Spec.ParametersRef return ref != nil && ref.Group == ngfAPI.GroupName && ref.Kind == v1.Kind(kinds.NginxProxy) }",
+      "return false"] ∧
+    Generated.Store.buildNginxProxyBody =
+      ["if gcReferencesAnyNginxProxy(gc) { npCfg := nps[types.NamespacedName{Name: gc.Spec.ParametersRef.Name}] if npCfg != nil { errs := validateNginxProxy(validator, npCfg) return &NginxProxy{ Source: npCfg, Valid: len(errs) == 0, ErrMsgs: errs, } } }",
+      "return nil"] ∧
+    Generated.Store.isNGFPolicyRelevantGraphBody =
+      ["key := PolicyKey{ NsName: nsname, GVK: gvk, }",
+      "if _, exists := g.NGFPolicies[key]; exists { return true }",
+      "if policy == nil { panic(\"policy cannot be nil\") }",
+      "for _, ref := range policy.GetTargetRefs() { switch ref.Group { case gatewayv1.GroupName: if g.gatewayAPIResourceExist(ref, policy.GetNamespace()) { return true } case \"\", \"core\": if ref.Kind == kinds.Service { svcNsName := types.NamespacedName{Namespace: policy.GetNamespace(), Name: string(ref.Name)} if _, exists := g.ReferencedServices[svcNsName]; exists { return true } } } }",
+      "return false"] ∧
+    Generated.Store.gatewayAPIResourceExistBody =
+      ["refNsName := types.NamespacedName{Name: string(ref.Name), Namespace: policyNs}",
+      "switch kind := ref.Kind; kind { case kinds.Gateway: if g.Gateway == nil { return false } return gatewayExists(refNsName, g.Gateway.Source, g.IgnoredGateways) case kinds.HTTPRoute, kinds.GRPCRoute: _, exists := g.Routes[routeKeyForKind(kind, refNsName)] return exists default: return false }"] ∧
+    Generated.Store.gatewayExistsBody =
+      ["if winner == nil { return false }",
+      "if client.ObjectKeyFromObject(winner) == gwNsName { return true }",
+      "_, exists := ignored[gwNsName]",
+      "return exists"] ∧
+    Generated.Store.processPoliciesGuards =
+      ["if len(pols) == 0 || gateways.Winner == nil { return nil }",
+      "if len(targetRefs) == 0 { continue }"] ∧
+    Generated.Store.processPoliciesRefLoop =
+      ["refNsName := types.NamespacedName{Name: string(ref.Name), Namespace: policy.GetNamespace()}",
+      "switch refGroupKind(ref.Group, ref.Kind) { case gatewayGroupKind: if !gatewayExists(refNsName, gateways.Winner, gateways.Ignored) { continue } case hrGroupKind, grpcGroupKind: if route, exists := routes[routeKeyForKind(ref.Kind, refNsName)]; !exists { continue } else { targetedRoutes[client.ObjectKeyFromObject(route.Source)] = route } case serviceGroupKind: if _, exists := services[refNsName]; !exists { continue } default: continue }",
+      "targetRefs = append(targetRefs, PolicyTargetRef{ Kind: ref.Kind, Group: ref.Group, Nsname: refNsName, })"] ∧
+    Generated.Store.refGroupKindBody =
+      ["if group == \"\" { return fmt.Sprintf(\"core/%s\", kind) }",
+      "return fmt.Sprintf(\"%s/%s\", group, kind)"] :=
+  -- literal equalities: checked by unfolding the generated definitions (`decide +kernel` compares long strings
+  -- character by character and needs ~50 s here)
+  ⟨rfl, rfl, rfl, rfl, rfl, rfl, rfl, rfl, rfl, rfl, rfl, rfl, rfl⟩
+
 
 /-- `Graph.IsReferenced`, `buildReferencedServices` (valid routes that belong to the winning Gateway),
 `isNamespaceReferenced`/`buildReferencedNamespaces` are the statements the model follows. -/
